@@ -82,7 +82,7 @@ func genScript(r *core.Rand) *script {
 			pp := r.Perm(len(prios))
 			var rs []ruleScript
 			for j := 0; j < nr; j++ {
-				ru := ruleScript{name: fmt.Sprintf("r%d_%d", i, j), prio: prios[pp[j]], fail: r.Chance(1, 4), yields: r.Intn(4)}
+				ru := ruleScript{name: fmt.Sprintf("r%dx%d", i, j), prio: prios[pp[j]], fail: r.Chance(1, 4), yields: r.Intn(4)}
 				nc := 0
 				if i < nk-1 || r.Chance(1, 3) {
 					nc = r.Intn(maxFan + 1)
@@ -543,6 +543,9 @@ func traceTail(tr *sched.Tracer, n int) []string {
 	return out
 }
 
+func time50us()  { time.Sleep(50 * time.Microsecond) }
+func time500us() { time.Sleep(500 * time.Microsecond) }
+
 // ---- gate matrix ---------------------------------------------------------------
 
 var holdPoints = []string{"mon.finish.unlocked", "mon.posted", "task.run.begin", "task.run.processed", "task.run.end",
@@ -556,13 +559,13 @@ func gateShapes() []*script {
 	}
 	// shape A: root adds two children, one fails; shape B: chain of depth 3 with a failing leaf and a skipped child
 	a := [][]ruleScript{
-		{{name: "r0_0", prio: 0, children: []childScript{{1, 1}, {1, 2}, {2, 0}}}},
-		{{name: "r1_0", prio: 1, fail: true}, {name: "r1_1", prio: 2}},
+		{{name: "r0x0", prio: 0, children: []childScript{{1, 1}, {1, 2}, {2, 0}}}},
+		{{name: "r1x0", prio: 1, fail: true}, {name: "r1x1", prio: 2}},
 	}
 	b := [][]ruleScript{
-		{{name: "r0_0", prio: 0, fail: true, children: []childScript{{1, 0}}}, {name: "r0_1", prio: 5, children: []childScript{{3, 0}}}},
-		{{name: "r1_0", prio: 0, children: []childScript{{2, 2}, {3, 1}}}},
-		{{name: "r2_0", prio: 9, fail: true}},
+		{{name: "r0x0", prio: 0, fail: true, children: []childScript{{1, 0}}}, {name: "r0x1", prio: 5, children: []childScript{{3, 0}}}},
+		{{name: "r1x0", prio: 0, children: []childScript{{2, 2}, {3, 1}}}},
+		{{name: "r2x0", prio: 9, fail: true}},
 	}
 	return []*script{mk(2, false, a), mk(2, true, b), mk(3, false, b), mk(1, false, a)}
 }
@@ -597,5 +600,17 @@ func Run(c *core.Ctx) {
 		r := c.Rng("noise", k)
 		s := genScript(r)
 		runScenario(c, "noise", k, s, uint64(r.OneOf(0, 100, 300, 700)), r.U64(), nil)
+	}
+	n = c.Pick(600, 20000)
+	if c.Race {
+		n = c.Pick(200, 4000)
+	}
+	for k := 0; k < n; k++ {
+		if !c.Take("ecal", k) {
+			continue
+		}
+		r := c.Rng("ecal", k)
+		s := genScript(r)
+		runEcal(c, "ecal", k, s, uint64(r.OneOf(0, 100, 300, 700)), r.U64())
 	}
 }
